@@ -155,7 +155,7 @@ theorem stepApi_writes {st st' : St} {c : Api} (hr : respectful st (.api c) = tr
   | psAdd g p hh =>
     simp only [stepApi] at h
     opt_cases h
-    · rename_i a hg _ arr off len cap hp m2 hm2
+    · rename_i a hg _ arr off len cap hp _ _ m2 hm2
       simp only [respectful, hg, Bool.and_eq_true] at hr
       have hw : SetW (fun x => wset st (.api (.psAdd g p hh)) x = true) st.mem st.mem a := by
         refine setW_of_owned ?_ hr.1
